@@ -368,6 +368,18 @@ def _mutate_in_place(reg, sp):
             if v.x.flags.writeable:
                 v.x[...] = v.x + 1
                 v.y[...] = v.y - 1
+        elif type(v).__name__ == 'SkyCoord' and not v.isscalar and len(v) > 1:
+            # an array SkyCoord supports item assignment (astropy >= 4.1):
+            # the copy's vertices are its own
+            try:
+                v[0] = v[-1]
+            except Exception:   # noqa: BLE001
+                pass
+        elif isinstance(v, PixCoord) and v.isscalar:
+            try:
+                v.x, v.y = v.x + 1, v.y - 1    # attributes of the held object
+            except Exception:   # noqa: BLE001
+                pass
         elif isinstance(v, u.Quantity):
             try:
                 v *= 2          # in place on the stored object
